@@ -290,6 +290,8 @@ func cmdCheck(args []string) {
 	var solverMs int64
 	backends := map[string]int{}
 	vacuity := 0
+	coverInconclusive := 0
+	var unreachable []string
 	for _, r := range cr.results {
 		for _, e := range r.Errors {
 			errs = append(errs, r.Func+": "+e)
@@ -310,8 +312,19 @@ func cmdCheck(args []string) {
 		for _, o := range r.Obligations {
 			ok := o.Status == "unsat"
 			if o.IsCover {
-				ok = o.Status == "sat"
+				// a cover fails only when the solver proves the assumptions contradictory; "unknown" (typical
+				// for satisfiability with quantified assumptions) is inconclusive and counted separately
+				ok = o.Status != "unsat"
 				vacuity++
+				if o.Status != "sat" && o.Status != "unsat" {
+					coverInconclusive++
+				}
+				if o.Informational {
+					if o.Status == "unsat" {
+						unreachable = append(unreachable, o.Name)
+					}
+					ok = true
+				}
 			}
 			rw := &row{o, r, ok}
 			if prev, dup := byName[o.Name]; dup {
@@ -523,6 +536,8 @@ func cmdCheck(args []string) {
 		"load_s":                   cr.loadSecs,
 		"vcgen_s":                  cr.genSecs,
 		"vacuity_checks":           vacuity,
+		"vacuity_inconclusive":     coverInconclusive,
+		"unreachable_return_points": unreachable,
 		"generated_obligations":    len(rows),
 		"undecided_new":            undecided,
 		"known_findings":           known,
